@@ -377,3 +377,31 @@ package mcp
 //@   final[C20] initialized, state
 //@ type StdioClient
 //@   guarded[C20] rootsProvider by rootsMu
+
+// ---------------------------------------------------------------------------
+// C09 — one message per frame: every write to a stream shared between
+// goroutines happens with that stream's lock held, one frame per critical section
+
+//@ ghost stable writes int
+//@
+//@ type getSSEConnection
+//@   guarded[C09,C20] writer, flusher, sseResponder by writeLock
+//@ type sseStream
+//@   final[C09,C20] writer, flusher, mu, logger
+//@   guarded[C09,C20] writer, flusher by mu
+//@
+//@ func handleEventQueue
+//@   before call fmt.Fprint#1 assert[C09 frame-written-under-the-session-write-lock] held(session.writeMu) == 2
+//@   before call safeFlush#1 assert[C09 flushed-under-the-session-write-lock] held(session.writeMu) == 2
+//@ func handleKeepAlive
+//@   before call fmt.Fprint#1 assert[C09 keepalive-comment-written-under-the-session-write-lock] held(session.writeMu) == 2
+//@   before call safeFlush#1 assert[C09 flushed-under-the-session-write-lock] held(session.writeMu) == 2
+//@ func handleNotifications
+//@   before call fmt.Fprintf#1 assert[C09 frame-written-under-the-session-write-lock] held(session.writeMu) == 2
+//@   before call safeFlush#1 assert[C09 flushed-under-the-session-write-lock] held(session.writeMu) == 2
+//@ func stdioTransport.writeResponse
+//@   before call Write#1 assert[C09 line-written-under-the-output-lock] held(s.writeMu) == 2
+//@   ensures[C09 exactly-one-write-per-message] writes <= old(writes) + 1
+//@   callspec writer.Write
+//@     counted writes
+//@     modifies *
